@@ -22,7 +22,8 @@ sys.path.insert(0, VERIF)
 
 TRUSTED = ['CrossHair 0.0.110 models of int/str/list/dict/re and its bytecode tracer (for "proved" verdicts only; '
            'every refutation is re-executed concretely, untraced)', 'z3-solver 4.x as shipped in the wheelhouse',
-           'CPython 3.12 ast.parse / tokenize / symtable as concrete oracles at leaves']
+           'CPython 3.12 ast.parse / tokenize / symtable as concrete oracles at leaves',
+           'two corrections to CrossHair 0.0.110 models applied by engine/chfix.py: re.search empty match at end of string; list[sym:sym] snapshot instead of live view']
 
 
 def run_worker(py, modname, cell, scale):
